@@ -31,7 +31,9 @@ func (l *filterRuleList) addRule(fr *filterRule) {
 func (l *filterRuleList) matches(name string) bool {
 	for _, fr := range l.Filters {
 		if fr.matches(name) {
-			return true
+			// The first matching rule decides: an include rule keeps the
+			// entry, an exclude rule leaves it out.
+			return fr.flag&filtruleInclude == 0
 		}
 	}
 	return false
